@@ -32,6 +32,8 @@ def lean_str(s: str) -> str:
             out.append("\\n")
         elif ch == "\t":
             out.append("\\t")
+        elif ch == "\r":
+            out.append("\\r")
         elif ord(ch) < 32 or ord(ch) == 127:
             out.append("\\x%02x" % ord(ch))
         else:
@@ -156,6 +158,16 @@ def main() -> None:
             text, todos = "!" + type(e).__name__, []
         rows.append(f"(([{', '.join(str(x) for x in shape)}], {lb(safe)}), ({lean_str(text)}, [{', '.join(lean_str(x) for x in todos)}]))")
     lines.append("def resultStringTable : List ((List Nat × Bool) × (String × List String)) := [\n  " + ",\n  ".join(rows) + "]")
+    lines = section("DecStrings")
+    # --- escape_string_literal on every string over {a, ", \, LF, CR, {} up to length 3 and some longer ones
+    from safeds_stubgen import escape_string_literal
+    alphabet = ["a", '"', "\\", "\n", "\r", "{"]
+    strings = [""]
+    for n in (1, 2, 3):
+        strings += ["".join(t) for t in itertools.product(alphabet, repeat=n)]
+    strings += ['C:\\dir\\file', 'say "hi"', 'a\\"b', "tab\there", "line1\nline2\r\n", 'x\\\\"y', "ünï", "{{x}}"]
+    rows = [f"({lean_str(v)}, {lean_str(outcome(escape_string_literal, v))})" for v in strings]
+    lines.append("def escapeStringTable : List (String × String) := [\n  " + ",\n  ".join(rows) + "]")
     changed = []
     for name, body in files.items():
         text = "\n".join(["/- GENERATED by tie/tabulate.py: the REAL functions of /repo's working tree evaluated on every point of a",
